@@ -95,49 +95,50 @@ Theorem actions_all_effective : forall (S : Type) (start : nat -> S) acts (l : g
     match first_terminal acts with
     | Some (ty, p) =>
       GReturn S (term_code ty)
-        (at_start S start (Build_gsm S (g_token l) (g_state l) (g_fresh l) m' st')
+        (at_start S start (Build_gsm S (g_token l) (g_state l) (g_fresh l) (g_accum l) m' st')
                   (term_code ty) (if ty =? 3 then p else g_token l))
-    | None => GFall S (Build_gsm S (g_token l) (g_state l) (g_fresh l) m' st')
+    | None => GFall S (Build_gsm S (g_token l) (g_state l) (g_fresh l) (g_accum l) m' st')
     end
   | None =>
     g_actions S start nmodes acts l = GCrash S \/
     exists l', g_actions S start nmodes acts l = GReturn S lexError l'
   end.
 Proof.
-  intros S start acts [tok s f md st] Htl. cbn [g_token g_state g_fresh g_mode g_stack].
+  intros S start acts [tok s f a md st] Htl. cbn [g_token g_state g_fresh g_accum g_mode g_stack].
   rewrite g_actions_spec.
   pose proof (act_spec_apply acts md st Htl) as H.
   destruct (apply_modes acts (md, st)) as [[m' st']|].
   - rewrite H. destruct (first_terminal acts) as [[ty p]|]; cbn [g_out]; [|reflexivity].
-    unfold at_start. cbn [g_mode g_stack]. destruct (ty =? 3); reflexivity.
+    unfold at_start. cbn [g_mode g_stack g_token]. destruct (ty =? 3); reflexivity.
   - destruct H as [H|[m' [st' H]]]; rewrite H; cbn [g_out]; [left; reflexivity|].
     right. eexists. reflexivity.
 Qed.
 
 (* ---------- (c) the same for the raw action loop over a mode array ---------- *)
 
-Theorem run_actions_all_effective : forall modes m n i ac fuel tok s md st,
+Theorem run_actions_all_effective : forall modes m n i ac fuel tok s cn a md st,
   nmodes = length modes ->
   take_pairs n m i = Some ac -> (n < fuel)%nat -> terminal_last ac = true ->
+  let l0 := {| sm_token := tok; sm_state := s; sm_consumed := cn; sm_accum := a;
+               sm_mode := md; sm_stack := st |} in
   match apply_modes ac (md, st) with
   | Some (m', st') =>
-    run_actions modes fuel m i (i + 2 * Z.of_nat n)
-      {| sm_token := tok; sm_state := s; sm_mode := md; sm_stack := st |} =
+    run_actions modes fuel m i (i + 2 * Z.of_nat n) l0 =
     match first_terminal ac with
     | Some (ty, p) =>
       AReturn (term_code ty)
-        {| sm_token := if ty =? 3 then p else tok; sm_state := 0; sm_mode := m'; sm_stack := st' |}
-    | None => AFall {| sm_token := tok; sm_state := s; sm_mode := m'; sm_stack := st' |}
+        {| sm_token := if ty =? 3 then p else tok; sm_state := 0; sm_consumed := false;
+           sm_accum := (term_code ty =? lexTryAgain); sm_mode := m'; sm_stack := st' |}
+    | None => AFall {| sm_token := tok; sm_state := s; sm_consumed := cn; sm_accum := a;
+                       sm_mode := m'; sm_stack := st' |}
     end
   | None =>
-    run_actions modes fuel m i (i + 2 * Z.of_nat n)
-      {| sm_token := tok; sm_state := s; sm_mode := md; sm_stack := st |} = ACrash \/
-    exists l', run_actions modes fuel m i (i + 2 * Z.of_nat n)
-      {| sm_token := tok; sm_state := s; sm_mode := md; sm_stack := st |} = AReturn lexError l'
+    run_actions modes fuel m i (i + 2 * Z.of_nat n) l0 = ACrash \/
+    exists l', run_actions modes fuel m i (i + 2 * Z.of_nat n) l0 = AReturn lexError l'
   end.
 Proof.
-  intros modes m n i ac fuel tok s md st Hnm Htp Hf Htl.
-  rewrite (run_actions_spec modes m n i ac Htp fuel tok s md st Hf). rewrite <- Hnm.
+  intros modes m n i ac fuel tok s cn a md st Hnm Htp Hf Htl l0. unfold l0.
+  rewrite (run_actions_spec modes m n i ac Htp fuel tok s cn a md st Hf). rewrite <- Hnm.
   pose proof (act_spec_apply ac md st Htl) as H.
   destruct (apply_modes ac (md, st)) as [[m' st']|].
   - rewrite H. destruct (first_terminal ac) as [[ty p]|]; cbn [sm_out]; [|reflexivity].
